@@ -1,7 +1,7 @@
 # run configuration of C14 for bin/check (see bin/props.py)
 PROP = {'level': 'exploration',
  'level_text': 'Generated payloads (0..200 KiB) are split into 1..60 linked frames (the ledger.ipldsch layout for every frame count x every fan-out 1..10, '
-               'the same layout with the link-carrying frame first, random trees; `next` lists ascending / descending / shuffled; CRC64-ISO and legacy FNV-1a '
+               'the same layout with the link-carrying frame first, random trees incl. trees whose links lead to smaller indexes; `next` lists ascending / descending / shuffled; CRC64-ISO and legacy FNV-1a '
                'checksums), encoded with the reference encoder, stored in shuffled order and served by CID; the real tooling.LoadDataFromDataFrames, '
                'getTransactionAndMetaFromNode / parseTransactionAndMetaFromNode and accum.ObjectsToTransactionsAndMetadata must return exactly the payload. '
                'Then every single-frame fault of the statement (frame missing at the getter / unlinked, link duplicated, link replaced by a duplicate, one bit of '
